@@ -4,6 +4,8 @@ val hd : 'a1 -> 'a1 list -> 'a1
 
 val nth_error : 'a1 list -> nat -> 'a1 option
 
+val last : 'a1 list -> 'a1 -> 'a1
+
 val rev : 'a1 list -> 'a1 list
 
 val map : ('a1 -> 'a2) -> 'a1 list -> 'a2 list
